@@ -123,11 +123,12 @@ Definition enc_len (n : N) : bs :=
 Definition hdr (tag : N) (n : N) : bs := tag :: enc_len n.
 Definition tlv (tag : N) (c : bs) : bs := hdr tag (blen c) ++ c.
 
-(* asn1: isPrintable with asterisk and ampersand allowed (what Marshal uses) *)
+(* asn1: isPrintable(b, rejectAsterisk, rejectAmpersand), what Marshal uses for a string without a type: '*' and '&'
+   make a UTF8String *)
 Definition printable (c : N) : bool :=
   ((97 <=? c) && (c <=? 122)) || ((65 <=? c) && (c <=? 90)) || ((48 <=? c) && (c <=? 57)) ||
   ((39 <=? c) && (c <=? 41)) || ((43 <=? c) && (c <=? 47)) ||
-  (c =? 32) || (c =? 58) || (c =? 61) || (c =? 63) || (c =? 42) || (c =? 38).
+  (c =? 32) || (c =? 58) || (c =? 61) || (c =? 63).
 (* a Go string without a string type in its field tag: PrintableString (19) when every byte is printable,
    else UTF8String (12) (Marshal fails on invalid UTF-8: such inputs never reach the function) *)
 Definition str_tag (s : bs) : N := if forallb printable s then 19 else 12.
